@@ -8,7 +8,7 @@ RULE = ('inputs: corpus, g2/g3 mixed junk, grammar scripts with random layout; e
         'non-trivial = distinct input with at least two pieces')
 ASSUMPTIONS = ['splitter model tied by S-SPLIT (sampled) and S-CSL (exhaustive)', 'lexer model tied by S-LEX/S-RE (C01)']
 PARTIAL = ['split() == stripped str() of parse() statements: by construction of FilterStack.run + grouping text preservation (C02); sampled here',
-           'pieces non-empty after strip(): sampled (needs the first-character analysis of C14)',
+           'pieces non-empty after strip(): theorem pieces_nonempty',
            're-split clause: sampled on lex-stable pieces; context-sensitive lexemes are known findings KF-C04-1/2']
 
 
